@@ -54,7 +54,11 @@ def cached_template(
     template_cls = template_cls or Template
     template_cls_path = get_import_path(template_cls)
     engine_cls_path = get_import_path(engine.__class__) if engine else None
-    cache_key = (template_cls_path, template_string, engine_cls_path)
+    # NOTE: `name` and `origin` are part of what gets compiled - e.g. relative paths in `{% include "./x.html" %}`
+    #       or `{% extends "./x.html" %}` are resolved against `origin.template_name` when the template is parsed.
+    #       So two templates with the same text but different name / origin must NOT share a cache entry.
+    origin_key = (origin.name, origin.template_name) if origin is not None else None
+    cache_key = (template_cls_path, template_string, engine_cls_path, name, origin_key)
 
     maybe_cached_template: Optional[Template] = template_cache.get(cache_key)
     if maybe_cached_template is None:
